@@ -103,6 +103,19 @@ class Return(Node):
         return 'return %s' % show(self.value)
 
 
+class Continue(Node):
+    """``continue``: the rest of the loop body is not executed on this path (folded by layout.structure like an early return)"""
+    kind = 'continue'
+
+    def __init__(self, node=None, func=None):
+        self.node = node
+        self.func = func
+        self.lineno = getattr(node, 'lineno', None)
+
+    def __repr__(self):
+        return 'continue'
+
+
 class Effect(Node):
     """A side effect other than a DSL primitive: mutation of a container, attribute
     store, key deletion, nested parse call ..."""
